@@ -222,7 +222,8 @@ pub fn scientific_literal(input: ParseString) -> ParseResult<RealNumber> {
     Ok((input, RealNumber::Float(exponent))) => {
       (input, exponent)
     }
-    _ => match integer_literal(input.clone()) {
+    // The exponent carries no kind suffix either: `1e3x` is `1e3` followed by `x`.
+    _ => match untyped_integer(input.clone()) {
       Ok((input, RealNumber::Integer(exponent))) => {
         (input, (exponent, Token::default()))
       }
